@@ -160,12 +160,21 @@ def observe_case(seed, opts, ncfg, want_runs=True, want_totals=True):
                 except AnalysisError:
                     meta['cfgs'].append(dict(c, skipped='solver-did-not-converge'))
                     continue
+                except ValueError as e:
+                    # a diverging iteration (NaN / inf iterates) that reaches a direct factorisation before the iterating
+                    # solver reports: no convergence, no claim (C09 covers what the solvers report)
+                    if 'infs or NaNs' not in str(e):
+                        raise
+                    meta['cfgs'].append(dict(c, skipped='solver-diverged-to-nan'))
+                    continue
                 cfgs.append({'full': full, 'blocks': blocks, 'scaled': bool(c['scaled'])})
                 meta['cfgs'].append(c)
     except AnalysisError:
         return {'skip': 'solver-did-not-converge'}
     except Exception as e:
         import traceback
+        if isinstance(e, ValueError) and 'infs or NaNs' in str(e):
+            return {'skip': 'solver-diverged-to-nan'}
         return {'exc': '%s: %s' % (type(e).__name__, e), 'tb': traceback.format_exc()[-1500:], 'meta': meta, 'md': md}
     return {'case': so.case_record(md, ref, runs, cfgs), 'meta': meta, 'md': md}
 
